@@ -714,6 +714,7 @@ fn scenario_key(sc: &Scenario) -> String {
 /// Runs the free-running tier in a child process (a stalled run can never be
 /// joined, so the child is killed): `gv C17-free <flavour> <reader idx> <iters>`.
 pub fn free_child(flavour: &str, idx: usize, iters: u64, focus: Option<&str>) -> i32 {
+    crate::flavour::REPEAT_CHECK.store(false, Ordering::Relaxed);
     let shapes = free_shapes();
     let (reader, writer) = shapes[idx % shapes.len()];
     let r = if flavour == SDi::NAME { free_run_noscope::<SDi>(reader, writer, iters, focus) } else { free_run_noscope::<SUn>(reader, writer, iters, focus) };
@@ -854,6 +855,7 @@ pub fn reentrant_reads<F: Flavour>() -> Vec<(&'static str, String)> {
 }
 
 pub fn replay(v: &Value, st: &mut Stats) -> Result<(), String> {
+    crate::flavour::REPEAT_CHECK.store(false, Ordering::Relaxed);
     let sc: Scenario = serde_json::from_value(v["scenario"].clone()).map_err(|e| e.to_string())?;
     if sc.n == 0 || sc.n > 8 || sc.threads.iter().flatten().any(|c| c.operands().iter().any(|o| *o as usize >= sc.n)) || sc.init.iter().any(|e| e.0 as usize >= sc.n || e.1 as usize >= sc.n) {
         return Err("malformed scenario".into());
@@ -913,6 +915,7 @@ pub fn unhooked_sites() -> (usize, Vec<String>) {
 }
 
 pub fn run(ctx: &mut Ctx) {
+    crate::flavour::REPEAT_CHECK.store(false, Ordering::Relaxed);
     let (sites, unhooked) = unhooked_sites();
     ctx.stats.extra.insert("lock_sites_in_source".into(), json!(sites));
     ctx.stats.extra.insert("lock_sites_without_lock_point".into(), json!(unhooked));
@@ -1064,6 +1067,64 @@ pub fn run(ctx: &mut Ctx) {
         ctx.stats.merge(part_b);
         ctx.stats.extra.insert("scenarios_deeper".into(), json!(nd));
         ctx.stats.extra.insert("scenarios_excluded_for_containing_a_known_bad_pair".into(), json!(excluded));
+    }
+
+    // ---- (b2) one mutator thread against reader threads on 4 nodes: must always serialise
+    {
+        use proptest::prelude::*;
+        let call = |mutating: bool| -> BoxedStrategy<Call> {
+            if mutating {
+                prop_oneof![
+                    3 => (0u8..4, 0u8..4, 40u32..44).prop_map(|(u, v, e)| Call::Connect(u, v, e)),
+                    2 => (0u8..4, 0u8..4, 44u32..48).prop_map(|(u, v, e)| Call::TryConnect(u, v, e)),
+                    3 => (0u8..4, 0u8..4).prop_map(|(u, v)| Call::Disconnect(u, v)),
+                    2 => (0u8..4).prop_map(Call::Isolate),
+                ]
+                .boxed()
+            } else {
+                prop_oneof![(0u8..4).prop_map(Call::Query), (0u8..4).prop_map(Call::Traverse)].boxed()
+            }
+        };
+        let strat = (proptest::collection::vec((0u8..4, 0u8..4, 1u32..6), 2..=5), proptest::collection::vec(call(true), 2..=3), proptest::collection::vec(call(false), 1..=2), proptest::collection::vec(call(false), 1..=2), proptest::option::of(proptest::collection::vec(call(false), 1..=1)));
+        let nsc = tier.pick(160usize, 4000usize);
+        let mut runner = proptest::test_runner::TestRunner::new_with_rng(proptest::test_runner::Config::default(), proptest::test_runner::TestRng::from_seed(proptest::test_runner::RngAlgorithm::ChaCha, &crate::pt::seed_bytes(seed, 1700)));
+        let scs: Vec<Scenario> = (0..nsc)
+            .map(|_| {
+                use proptest::strategy::ValueTree;
+                let (init, m, r1, r2, r3) = strat.new_tree(&mut runner).unwrap().current();
+                let mut threads = vec![m, r1, r2];
+                if let Some(r3) = r3 {
+                    threads.push(r3);
+                }
+                Scenario { n: 4, init, threads }
+            })
+            .collect();
+        let part = parallel(workers, |w| {
+            let mut st = Stats::new();
+            let mut pool = Pool::new(4);
+            for (i, sc) in scs.iter().enumerate() {
+                if i % workers != w {
+                    continue;
+                }
+                wd.tick();
+                macro_rules! go {
+                    ($F:ty) => {{
+                        let (execs, _complete) = explore::<$F>(&mut pool, sc, 150, &mut st);
+                        explore_random::<$F>(&mut pool, sc, 60, seed ^ (i as u64) << 8, &mut st);
+                        st.class_n(&format!("executions.one-mutator-vs-readers.{}", <$F>::NAME), execs as u64 + 60);
+                        st.nontrivial(&(<$F>::NAME, sc));
+                        if i % 41 == 7 {
+                            st.sample_kind("one-mutator-vs-readers", 1, || json!({"scenario": sc}));
+                        }
+                    }};
+                }
+                go!(SDi);
+                go!(SUn);
+            }
+            st
+        });
+        ctx.stats.merge(part);
+        ctx.stats.extra.insert("scenarios_one_mutator_vs_readers".into(), json!(nsc));
     }
 
     // ---- (c1) lock discipline: re-entrant reads, confirmed by the free-running tier
